@@ -5,7 +5,7 @@ cd /verif
 declare -A CHECKS=(
  [C01]="C01 C02" [C02]="C02 C01" [C03]="C03 C13 C07" [C04]="C04 C09 C20" [C05]="C05 C06 C19" [C06]="C09 C06 C04" [C07]="C07"
  [C08]="C08 C09" [C09]="C09" [C10]="C10" [C11]="C11 C19" [C12]="C12 C11 C13" [C13]="C13" [C14]="C14 C11" [C15]="C15"
- [C16]="C16 C03" [C17]="C17 C07" [C18]="C18" [C19]="C19" [C20]="C20 C19"
+ [C16]="C16 C03" [C05-3]="C05 C09" [C07-3]="C07 C13" [C16-3]="C16 C13 C03" [C06-3]="C06 C07" [C01-3]="C01 C11" [C17]="C17 C07" [C18]="C18" [C19]="C19" [C20]="C20 C19"
 )
 ids="$@"; [ -z "$ids" ] && ids=$(ls seeded | grep '^C')
 for id in $ids; do
@@ -14,7 +14,7 @@ for id in $ids; do
   if ! git -C /repo apply --check $PWD/$d/patch.diff 2>/dev/null; then echo "$id PATCH-DOES-NOT-APPLY"; continue; fi
   git -C /repo apply $PWD/$d/patch.diff
   : > $d/sweep.txt
-  for c in ${CHECKS[$prop]}; do
+  for c in ${CHECKS[$id]:-${CHECKS[$prop]}}; do
     out=$(./bin/kbcheck $c --tier quick 2>&1); e=$?
     sig=$(echo "$out" | grep -m1 "signature:" | sed 's/^ *signature: //' | cut -c1-160)
     res=missed; [ $e -eq 1 ] && res=caught
